@@ -270,7 +270,9 @@ def coq_expr(case, obs):
     if op == "to_regex":
         if "tree" not in obs:
             return None
-        return "(judge_re %s %s 60%%nat 5%%nat, true)" % (A, coq_re(obs["tree"], si))
+        # second component: the expression of the proved model of to_regex (state elimination) and pyformlang's agree on all short words
+        R = coq_re(obs["tree"], si)
+        return "(judge_re %s %s 60%%nat 5%%nat, to_regex_model_agrees %s %s 4%%nat)" % (A, R, A, R)
     if op in RATIONAL:
         if "out" not in obs:
             return None
@@ -362,7 +364,7 @@ def judge_case(ctx, case, obs, mv):
             w = verdict[1] if isinstance(verdict, tuple) else None
             ctx.fail(op + "-language", case, {"distinguishing_word_interned": w, "impl_out": obs.get("out", obs.get("tree")), "hashseed": obs.get("_hs")})
         elif shape is not True:
-            ctx.fail(op + "-shape", case, {"impl_out": obs["out"]})
+            ctx.fail(op + ("-model" if op == "to_regex" else "-shape"), case, {"impl_out": obs.get("out", obs.get("tree"))}, **({"correspondence_only": True} if op == "to_regex" else {}))
         elif obs.get("isdet") is False:
             ctx.fail(op + "-shape", case, {"impl_out": obs["out"], "is_deterministic()": False})
         elif obs.get("operands_unchanged") is False:
